@@ -10,22 +10,23 @@
 EXTENDS FsIO, Json, IOUtils
 
 TheTrace == ndJsonDeserialize(IOEnv.TRACE_FILE)
-VARIABLES l, tid, viol
-tvars == <<fvars, l, tid, viol>>
+VARIABLES l, tid, viol, doomed
+tvars == <<fvars, l, tid, viol, doomed>>
 
-TraceInit == /\ l = 1 /\ tid = 0 /\ viol = {} /\ FsInit(0)
+TraceInit == /\ l = 1 /\ tid = 0 /\ viol = {} /\ doomed = FALSE /\ FsInit(0)
 
 Line == TheTrace[l]
 Judge(v) == v \cup (IF ~WritesUnderOutput' THEN {<<tid', "WritesUnderOutput">>} ELSE {})
               \cup (IF ~InputsUntouched' THEN {<<tid', "InputsUntouched">>} ELSE {})
               \cup (IF ~FailureVisible' THEN {<<tid', "FailureVisible">>} ELSE {})
+              \cup (IF ~RequestRefused(doomed)' THEN {<<tid', "RequestRefused">>} ELSE {})
 
 TBegin == /\ Line.ev = "Begin"
-          /\ tid' = Line.tid
+          /\ tid' = Line.tid /\ doomed' = Line.doomed
           /\ pc' = "running" /\ written' = {} /\ faultAt' = Line.fault /\ points' = 0 /\ faulted' = FALSE
           /\ outcome' = "none" /\ inputsSame' = TRUE
-TMutate == /\ Line.ev = "Mutate" /\ Mutate(Line.root, Line.rel) /\ tid' = tid
-TWrite == /\ Line.ev = "WritePoint" /\ tid' = tid
+TMutate == /\ Line.ev = "Mutate" /\ Mutate(Line.root, Line.rel) /\ tid' = tid /\ UNCHANGED doomed
+TWrite == /\ Line.ev = "WritePoint" /\ tid' = tid /\ UNCHANGED doomed
           /\ IF Line.faulted /\ faultAt # points + 1
              THEN \* the device stays full: a retry on the path the fault struck fails again
                   /\ faulted /\ points' = points + 1
@@ -33,7 +34,7 @@ TWrite == /\ Line.ev = "WritePoint" /\ tid' = tid
              ELSE /\ WritePoint(Line.root, Line.rel)
                   \* the recorded fault must strike exactly where the model says it does
                   /\ Line.faulted = (faultAt = points + 1)
-TReturn == /\ Line.ev = "Return" /\ Return(Line.outcome, Line.same) /\ tid' = tid
+TReturn == /\ Line.ev = "Return" /\ Return(Line.outcome, Line.same) /\ tid' = tid /\ UNCHANGED doomed
 
 TraceNext == /\ l <= Len(TheTrace)
              /\ (TBegin \/ TMutate \/ TWrite \/ TReturn)
